@@ -26,7 +26,7 @@ from strengths.rdsystem import RDSystem, rdsystem_from_dict  # noqa: E402
 
 TOL = 1e-12
 ENVS = ["cyt", "mem", "ext"]
-LABELS = ["A", "Bb", "C3"]
+LABELS = ["Ab", "A", "bA"]      # one label is a prefix / substring of the others: weak label matching shows
 PRIMES = [2, 3, 5, 7, 11, 13, 17, 19, 23, 29, 31, 37, 41, 43, 47, 53, 59, 61, 67, 71, 73, 79, 83, 89, 97]
 DENS_UNITS = ["µM", "molecule/µm3", "nM", "nmol.cm-3", "mM"]
 VOL_UNITS = ["fL", "µm3", "pL", "µL", "cm3"]
